@@ -38,7 +38,8 @@ def check(rep: Report, what: str = "clean") -> None:
     for pr in progs if what == "clean" else []:
         c = pr["c"]
         case = dict(api="new", rw=c["rw"], rh=c["rh"], frames=c["frames"], loops=c["loops"], cache=False,
-                    pad={"kind": "exact", "l": c["l"], "t": c["t"], "r": c["r"], "b": c["b"]},
+                    pad={"kind": "exact", "l": c["l"], "t": c["t"], "r": c["r"], "b": c["b"],
+                         "fill": " " if c["fill"] else ""},
                     cols=c["cols"], rows=c["rows"], tty=c["tty"], r0=0, animate=True,
                     hide_cursor=True, echo_input=True)
         rep.evaluations += 1
@@ -63,7 +64,8 @@ def check(rep: Report, what: str = "clean") -> None:
         if c["r0"] != 0:
             continue
         case = dict(api="new", rw=c["rw"], rh=c["rh"], frames=c["frames"], loops=c["loops"], cache=False,
-                    pad={"kind": "exact", "l": c["l"], "t": c["t"], "r": c["r"], "b": c["b"]},
+                    pad={"kind": "exact", "l": c["l"], "t": c["t"], "r": c["r"], "b": c["b"],
+                         "fill": " " if c["fill"] else ""},
                     cols=c["cols"], rows=c["rows"], tty=c["tty"], r0=0, animate=True,
                     hide_cursor=True, echo_input=True)
         for k in range(1, pr["nbody"] + 1):
